@@ -27,6 +27,7 @@ Stand-alone:  python3 /verif/lib/steps_thread.py C05|C06 [quick|thorough] [--no-
 import atexit
 import concurrent.futures
 import hashlib
+import itertools
 import json
 import os
 import re
@@ -514,7 +515,22 @@ def cleanup_tmp():
     _TMPDIR = None
 
 
-_SEQ = [0]
+_SEQ = itertools.count(1)
+_KEPT = [0]
+
+
+def keep_evidence(name, res):
+    """VERIF_THREAD_KEEP=<dir>: raw stdout + strace log of violating runs are kept there (at most 40)"""
+    d = os.environ.get("VERIF_THREAD_KEEP")
+    if not d or _KEPT[0] >= 40:
+        return
+    _KEPT[0] += 1
+    os.makedirs(d, exist_ok=True)
+    base = os.path.join(d, "%d.%s" % (_KEPT[0], re.sub(r"[^A-Za-z0-9_.-]+", "_", name)[:80]))
+    with open(base + ".out", "w") as f:
+        f.write(res["out"] + "\n--- stderr ---\n" + res["err"] + "\n--- rc %s timed_out %s\n" % (res["rc"], res["timed_out"]))
+    with open(base + ".strace", "w") as f:
+        f.write(res["strace"])
 STRACE_SET = "trace=mmap,munmap,mremap,clone,clone3,exit,exit_group,futex,set_tid_address"
 
 
@@ -523,8 +539,7 @@ def run_probe(binp, argv, strace=False, inject=None, timeout=20.0):
     cmd = [binp] + list(argv)
     slog = None
     if strace or inject:
-        _SEQ[0] += 1
-        slog = os.path.join(tmpdir(), "s%d.%d.log" % (os.getpid(), _SEQ[0]))
+        slog = os.path.join(tmpdir(), "s%d.%d.log" % (os.getpid(), next(_SEQ)))
         pre = ["strace", "-f", "-e", STRACE_SET, "-o", slog]
         if inject:
             pre += ["-e", "inject=" + inject]
@@ -831,7 +846,7 @@ def resource_checks(v, rep, specs, preds, ungated=False):
                 once(rec, "result-heap", "handle", None)
             elif not good and not panics and op not in JOIN_OPS:
                 v.add("C06:drop-unjoined:result-not-dropped",
-                      "thread %d returned a %s; its handle was dropped, not joined: the join block was freed but the value's destructor never ran - "
+                      "thread %d returned a %s; its handle was dropped, not joined, and nobody ran the value's destructor - "
                       "%d bytes at %#x allocated by the thread stay live for ever" % (o, ty, rec["size"], rec["addr"]))
             else:
                 once(rec, "result-heap", "any", None)
@@ -1204,9 +1219,11 @@ def eval_fault(binp, case):
         v.add("C05:join:hangs", "with %s: join of thread #%s never returned (parent watchdog %.0f s); output ends: %s" %
               (inject, last, case.get("timeout", 5.0), " | ".join(res["out"].splitlines()[-3:])))
         info["outcome"] += ":hang"
+        keep_evidence(case["name"], res)
         return v, info, rep
     if res["rc"] != 0 or not rep["done"]:
         v.add("C05:probe:crashed", "probe ended with status %s under %s; stderr %s" % (res["rc"], inject, res["err"][-200:]))
+        keep_evidence(case["name"], res)
         return v, info, rep
     specs = [("u64", False, "j")] * n
     for o in range(n):
@@ -1239,10 +1256,88 @@ def eval_fault(binp, case):
               "spawn #%d returned Err after its %s failed, but what it had set up before is never released: %s%s" %
               (victim, which, ", ".join(leaked), " (so the closure and what it captured are never dropped)" if any(l.startswith("closure") for l in leaked) else ""))
     info["outcome"] += ":err" if sp and sp[0] == 0 else ":ok"
+    if v:
+        keep_evidence(case["name"], res)
     return v, info, rep
 
 
-EVAL = dict(gated=eval_gated, free=eval_free, hist=eval_hist, fault=eval_fault)
+def eval_race(binp, case):
+    """SAMPLED gate-aligned race sweep: `rounds` threads, handle owner parked at gate gh, thread at gate
+    gt, both released at once with a swept skew; the existing per-allocation and value oracles are applied
+    to every batch of the probe's report."""
+    spec = tuple(case["specs"][0])
+    rounds, batch = case["rounds"], case.get("batch", 200)
+    argv = ["race", "3000", str(rounds), str(batch), str(case["gh"]), str(case["gt"]), str(case.get("hold_h", 0)),
+            str(case.get("maxskew", 64)), spec_str([spec])]
+    res = run_probe(binp, argv, strace=False, timeout=120)
+    v = V()
+    info = dict(argv=argv, outcome="race:%s-x-%s" % (GATE[case["gh"]], GATE[case["gt"]]), threads=0, aligned=0)
+    text = res["out"]
+    head, _, rest = text.partition("\nbatch ")
+    whole = parse_report(text)
+    if crash_check(v, res, whole, [spec]):
+        return v, info, whole
+    chunks = rest.split("\nbatch ")
+    aligned = unaligned = 0
+    for ch in chunks:
+        first, _, body = ch.partition("\n")
+        w = first.split()
+        start, nb = int(w[0]), int(w[1])
+        body = body.split("\nendbatch")[0]
+        rep_ = parse_report(head + "\n" + body + "\n")
+        m = re.search(r"^race (\d+) (\d+)$", body, re.M)
+        if m:
+            aligned, unaligned = int(m.group(1)), int(m.group(2))
+        specs = [spec] * nb
+        rep_["done"] = True
+        value_checks(v, rep_, specs, None, tag_of=lambda o, s0=start: s0 + o)
+        resource_checks(v, rep_, specs, None, ungated=True)
+        c = rep_["counters"] or {}
+        if rep_["end"] and rep_["base"]:
+            if rep_["end"]["tasks"] != 1:
+                v.add("C06:thread:not-exited", "/proc/self/task lists %d threads after a batch of the race sweep" % rep_["end"]["tasks"])
+            if (rep_["end"]["vm"] - rep_["base"]["vm"]) * 4096 >= STACK_SZ:
+                v.add("C06:stack:not-unmapped", "VmSize grew by %d pages over %d threads of the race sweep (a thread stack is %d pages)" %
+                      (rep_["end"]["vm"] - rep_["base"]["vm"], start + nb, STACK_SZ // 4096))
+        info["threads"] += nb
+    maps_checks(v, whole)
+    info["aligned"], info["unaligned"] = aligned, unaligned
+    if aligned < 0.8 * max(1, aligned + unaligned):
+        info["outcome"] += ":poorly-aligned"
+    # the violations found here come from a SAMPLED phase: say so in the description
+    v2 = V()
+    for k, d in v:
+        v2.append((k, "[sampled race sweep %s x %s, %s, skew -%d..+%d pauses] %s" %
+                   (GATE[case["gh"]], GATE[case["gt"]], spec_str([spec]), case.get("maxskew", 64), case.get("maxskew", 64), d)))
+    return v2, info, whole
+
+
+# (handle-side gate, thread-side gate, gate at which the handle owner first waits for the thread to be parked, outcome, op):
+# the steps that follow the two gates touch the same shared word
+RACE_PAIRS = [
+    (20, 32, 0, False, "d"),   # flag: drop's CAS x thread's CAS
+    (20, 41, 0, True, "d"),    # flag: drop's CAS x panic path's CAS
+    (10, 32, 0, False, "j"),   # join entering its wait x thread's CAS
+    (10, 35, 0, False, "j"),   # exit word: join's wait x thread leaving (free TLS, unmap, exit, kernel clear-tid)
+    (10, 44, 0, True, "j"),    # exit word: join's wait x panicked thread leaving
+    (21, 35, 20, False, "d"),  # exit word: drop's wait (CAS lost) x thread leaving
+    (21, 44, 20, True, "d"),   # exit word: drop's wait (CAS lost) x panicked thread leaving
+]
+
+
+def enumerate_race(tier):
+    per_proc = 1000
+    procs = 10 if tier == "thorough" else 1
+    cases = []
+    for gh, gt, hold, p, op in RACE_PAIRS:
+        for ty in ("unit", "box"):
+            for k in range(procs):
+                cases.append(dict(kind="race", specs=[(ty, p, op)], gh=gh, gt=gt, hold_h=hold, rounds=per_proc, batch=200, maxskew=64,
+                                  name="race/%s-x-%s/%s/%d" % (GATE[gh], GATE[gt], ty, k)))
+    return cases
+
+
+EVAL = dict(gated=eval_gated, free=eval_free, hist=eval_hist, fault=eval_fault, race=eval_race)
 
 
 _RETRIES = [0]
@@ -1502,10 +1597,21 @@ def collect(tier, env=None, use_cache=True):
         except (ValueError, OSError):
             pass
     notes = []
+    # which tree was the probe built from?  (other jobs patch /repo in place for a while: a violation seen
+    # while the tree was dirty belongs to that patch)
+    repo = os.environ.get("VERIF_THREAD_REPO", "/repo")
+    try:
+        head = subprocess.run(["git", "-C", repo, "rev-parse", "--short", "HEAD"], stdout=subprocess.PIPE, stderr=subprocess.DEVNULL, text=True).stdout.strip()
+        dirty = subprocess.run(["git", "-C", repo, "status", "--porcelain", "--untracked-files=no"], stdout=subprocess.PIPE, stderr=subprocess.DEVNULL, text=True).stdout.split("\n")
+        dirty = [d.strip() for d in dirty if d.strip()]
+        notes.append("probe built from %s at %s%s" % (repo, head or "?", (" with uncommitted changes: " + ", ".join(dirty[:6])) if dirty else " (clean tree)"))
+    except OSError:
+        pass
     mc = model_check(tier)
     model = {}
     cases = enumerate_cases(tier, model)
     cases += enumerate_hist(tier)
+    rcases = enumerate_race(tier)
     fcases, fnotes = enumerate_faults(binp, tier)
     notes += fnotes
     results = []
@@ -1518,6 +1624,7 @@ def collect(tier, env=None, use_cache=True):
         notes.append("first trace replayed twice gave different observations: %r vs %r" % (d1[1:], d2[1:]))
     with concurrent.futures.ThreadPoolExecutor(max_workers=WORKERS) as ex:
         futs = [ex.submit(run_case, binp, c) for c in fcases]  # the hanging ones first: they cost 5 s each
+        futs += [ex.submit(run_case, binp, c) for c in rcases]  # then the long ones
         futs += [ex.submit(run_case, binp, c) for c in cases]
         for f in futs:
             results.append(f.result())
@@ -1573,11 +1680,25 @@ def make_report(prop, tier, data):
     seen = set()
     kinds = {}
     sample_n = {}
+    sampled = dict(threads=0, aligned=0)
     for r in data["results"]:
         case, vs, info = r["case"], r["violations"], r["info"]
         k = case["kind"]
-        rep["evaluations"] += 1
         kinds[k] = kinds.get(k, 0) + 1
+        if k == "race":
+            # SAMPLED phase: not part of the enumerated space (evaluations / distinct / exhaustive)
+            sampled["threads"] += info.get("threads", 0)
+            sampled["aligned"] += info.get("aligned", 0)
+            oc = "sampled-" + info.get("outcome", "race")
+            rep["outcomes"][oc] = rep["outcomes"].get(oc, 0) + 1
+            for key, desc in vs:
+                if key.startswith("MACHINERY"):
+                    rep["notes"].append("machinery-failure")
+                    rep["notes"].append("%s: %s (%s)" % (key, desc, case.get("name")))
+                elif key.startswith(prop + ":"):
+                    add(key, desc, case)
+            continue
+        rep["evaluations"] += 1
         sig = (k, json.dumps(case.get("specs")), json.dumps(case.get("trace")), case.get("order"), case.get("inject"), case.get("reps"), case.get("delay_us"))
         if sig not in seen:
             seen.add(sig)
@@ -1606,18 +1727,25 @@ def make_report(prop, tier, data):
     rep["bounds"] = dict(tier=tier, model_configs=m["configs"], one_thread_traces=m["one"], two_thread_pairs=len(m["two"]),
                          two_thread_traces=sum(x[3] for x in m["two"]), three_thread_traces=m.get("three", 0), runs_by_kind=kinds, result_types=list(TYPES),
                          history_reps=2000 if tier == "thorough" else 200, ungated_max_threads=64 if tier == "thorough" else 8,
-                         model_mutants_rejected="%d/%d" % (sum(1 for _m, h in m["mutants"] if h), len(m["mutants"])))
+                         model_mutants_rejected="%d/%d" % (sum(1 for _m, h in m["mutants"] if h), len(m["mutants"])),
+                         sampled_race_sweep=dict(pairs=["%s x %s" % (GATE[a], GATE[b]) for a, b, _h, _p, _o in RACE_PAIRS], result_types=["unit", "box"],
+                                                 skew_pauses="-64..+64", threads=sampled["threads"], released_together=sampled["aligned"]))
     rep["rule"] = ("protocol model of spawn/join/drop/thread-exit/kernel-exit with steps = the H3 gates: BFS over all interleavings (1, 2%s threads), "
                    "invariants on every state; every maximal trace of the 1-thread model x 8 result types and %s of the 2-thread model is replayed as a gate schedule "
                    "on the real binary (one probe process per trace; quarantining allocator log + strace) and compared with the model's prediction; "
                    "ungated runs with 1..%d concurrently live threads; histories: all scenario words of length <= 3 and each scenario x %d back to back with a "
                    "fingerprint lasso; each stack mmap / clone of a spawn loop failed by strace injection. A case is non-trivial when it is a distinct "
-                   "(scenario, trace/word, fault) tuple." % (", 3" if tier == "thorough" else "", "all trace pairs (canonical linearisations)" if tier == "thorough" else "a sample",
+                   "(scenario, trace/word, fault) tuple. PLUS A SAMPLED PHASE (not enumerated, not counted in evaluations/exhaustive): gate-aligned race sweeps - "
+                   "for each pair (handle gate, thread gate) whose following steps touch the same shared word the two parties are parked at their gates and "
+                   "released together with a skew of -64..+64 pauses, thousands of threads per pair, same per-allocation / value oracles per batch of 200; "
+                   "this samples the orderings INSIDE the ungated windows, which schedule replay cannot order." % (", 3" if tier == "thorough" else "", "all trace pairs (canonical linearisations)" if tier == "thorough" else "a sample",
                                                             64 if tier == "thorough" else 8, 2000 if tier == "thorough" else 200))
     if tier != "thorough":
         rep["exhaustive"] = False
         rep["caps_hit"].append("quick tier: two-thread gate schedules and ungated thread counts are a subset (thorough: all)")
     rep["notes"].append("gate replay orders steps at gate granularity only; x86_64 debug build of the probe")
+    rep["notes"].append("SAMPLED: gate-aligned race sweeps (%d threads, %d released together) probe the windows between gates; a clean sweep is evidence, not proof" %
+                        (sampled["threads"], sampled["aligned"]))
     if data.get("from_cache"):
         rep["notes"].append("probe executions shared with the other property's run (cache %s)" % data["stamp"][:12])
     return rep
